@@ -59,10 +59,20 @@ def find_class(name):
     return fc(name)
 
 
+RESP_CLASSES = {}
+
+
 def make_req(cls_, id_, payload, resp):
     """synthetic request/response pair (resp = minimum decodable length) or a real poll class (resp = class name)"""
     if resp.isdigit():
         minlen = int(resp)
+        if (cls_, id_, minlen) in RESP_CLASSES:
+            # the same response class object whenever the same kind of request comes again (as an application's frame classes
+            # are), another class for another layout of the same class/id
+            Resp = RESP_CLASSES[(cls_, id_, minlen)]
+        else:
+            Resp = None
+    if resp.isdigit() and Resp is None:
 
         class Resp(UbxFrame):
             CID = UbxCID(cls_, id_)
@@ -72,6 +82,9 @@ def make_req(cls_, id_, payload, resp):
             def unpack(self):
                 if len(self.data) < minlen:
                     raise ValueError
+
+        RESP_CLASSES[(cls_, id_, minlen)] = Resp
+    if resp.isdigit():
 
         class R(UbxFrame):
             CID = UbxCID(cls_, id_)
@@ -104,7 +117,7 @@ def call(s, kind, req):
     """one request; what it returns is kept, marked and scribbled on, as a caller may: a later result that is one of these
     objects (or carries the mark) was not decoded after the later request's transmission"""
     try:
-        r = {'set': s.set, 'mga': s.set_mga, 'poll': s.poll, 'faf': s.fire_and_forget}[kind](req)
+        r = realenv.in_thread({'set': s.set, 'mga': s.set_mga, 'poll': s.poll, 'faf': s.fire_and_forget}[kind], req)
         out = show_result(r)
         if r is not None:
             if any(r is q for q in RETURNED) or getattr(r, 'seen_by_caller', False):
@@ -482,6 +495,8 @@ class Link:
         self.buf = bytearray(buffered)
         self.sent, self.tx_trace = [], []
         self.rates = []                 # tty: the bit rate the port was at for each transmission
+        self.nested = False             # a transmission made from inside a back-end hook (see Traced): not an attempt of the request
+        self.nested_sent = []
         self.cur = req_index
         self.attempt = 0
 
@@ -497,6 +512,9 @@ class Link:
         self.buf.clear()
 
     def on_tx(self, data):
+        if self.nested:
+            self.nested_sent.append(bytes(data))
+            return True
         self.sent.append(bytes(data))
         if len(self.sent) > 200:
             raise Runaway()
@@ -536,13 +554,31 @@ class Traced:
     def trace_init(self, link):
         self.link = link
         self.rx_trace, self.calls = [], ''
+        self.nested_count = {}
         self.limit = 400000
 
     sent = property(lambda self: self.link.sent)
     tx_trace = property(lambda self: self.link.tx_trace)
 
+    def nested_activity(self, where):
+        """a second control flow enters the object while it is inside a back-end hook of a request (a back end that pokes the
+        receiver, a timer, a signal handler, another thread between two reads): fire_and_forget() of another frame, once, at
+        the scripted point.  It is no attempt of the request and nothing of it may show in what the request does."""
+        n = self.link.sc.get('nested')
+        if not n or self.link.nested or n['where'] != where or self.link.cur != n['req']:
+            return
+        self.nested_count[where] = self.nested_count.get(where, 0) + 1
+        if self.nested_count[where] != n['at']:
+            return
+        self.link.nested = True
+        try:
+            self.fire_and_forget(make_req(6, 0x31, bytes.fromhex('00010000'), '0'))
+        finally:
+            self.link.nested = False
+
     def _recover(self):
         self.calls += 'v'
+        self.nested_activity('recover')
         return super()._recover()
 
     def _flush_input(self):
@@ -550,10 +586,12 @@ class Traced:
         return super()._flush_input()
 
     def _transmit(self, data):
-        self.calls += 't'
+        if not self.link.nested:
+            self.calls += 't'
         return super()._transmit(data)
 
     def _receive(self):
+        self.nested_activity('receive')
         self.calls += 'r'
         t0 = CLK.ticks
         if t0 - T0 > self.limit:
@@ -595,7 +633,8 @@ class LinkSerial(realenv.Serial):
 
     def write(self, data):
         self.log.append(('write', bytes(data)))
-        self.link.rates.append(self._baud)
+        if not self.link.nested:
+            self.link.rates.append(self._baud)
         return len(data) if self.link.on_tx(data) else max(0, len(data) - 1)
 
     def reset_input_buffer(self):
@@ -967,7 +1006,10 @@ def gen_c06(rng):
         tl = [(off, body.hex())]
     timelines.append(tl)
     expect = [K, f'{acid[0]}/{acid[1]}:{tag}:{apl.hex()}']
-    return {'retries': retries, 'delay': delay, 'chunk': chunk, 'timeout': timeout, 'backend': pick_backend(rng, chunk, timeout),
+    nested = {}
+    if rng.random() < 0.15:
+        nested = {'nested': {'req': len(history), 'at': rng.choice([1, 2, 3, 4, 6]), 'where': rng.choice(['receive', 'receive', 'recover'])}}
+    return {**nested, 'retries': retries, 'delay': delay, 'chunk': chunk, 'timeout': timeout, 'backend': pick_backend(rng, chunk, timeout),
             'reqs': history + [{'kind': kind, 'cid': [cls_, id_], 'payload': rand_payload(rng, rng.choice([0, 1, 6])).hex(), 'resp': str(minlen),
                                 'tx': tx, 'timelines': timelines}], 'expect': expect}
 
@@ -1020,6 +1062,13 @@ def gen_sequence(rng):
         sc['baud'] = rng.choice(BAUDS)          # the line speed was switched after the port was opened
     if rng.random() < 0.2:
         sc['bystander'] = True
+    if rng.random() < 0.15:
+        # another frame leaves through fire_and_forget() while a request of the sequence is waiting; the receiver may well
+        # acknowledge THAT frame (an ACK naming another request)
+        k = rng.randrange(len(reqs))
+        sc['nested'] = {'req': k, 'at': rng.choice([1, 1, 2, 3, 5]), 'where': rng.choice(['receive', 'receive', 'recover'])}
+        if rng.random() < 0.7 and reqs[k]['timelines']:
+            reqs[k]['timelines'][0].append((rng.choice([1, 2, 5, dticks // 2]), frame(5, 1, [6, 0x31]).hex()))
     return sc
 
 
@@ -1052,7 +1101,7 @@ def run_level(line, debug):
     kind, name, h, edits, retries, delay, txs, rxs = p[1:9]
     txl = [t == '1' for t in txs.split(',')] if txs else []
     rx = [(int(e.split(':')[0]), bytes.fromhex(e.split(':')[1])) for e in rxs.split(',')] if rxs else []
-    log_level(debug)
+    log_level(debug, LEVEL_SPLIT[0] if debug else None)
     try:
         FrameFactory.destroy()
         CLK.ticks = T0
@@ -1070,13 +1119,16 @@ def run_level(line, debug):
         log_level(False)
 
 
+LEVEL_SPLIT = [None]      # set by the oracle: DEBUG on a part of the package's loggers only
+
+
 def run_plain(line, debug):
     """parsing and scanning (not requests) at a log level: the plain component's line behind a `level` prefix"""
     import comp_parsers
     base = line[len('level'):]
     fn = {'ubx': comp_parsers.real_ubx, 'nmea': comp_parsers.real_nmea, 'scan': real_scan, 'gpsdtx': real_gpsdtx, 'gpsd': real_gpsd,
           'tty': real_tty}[base.split('|')[0].replace('scanseq', 'scan').replace('gpsdsetup', 'gpsdtx')]
-    log_level(debug)
+    log_level(debug, LEVEL_SPLIT[0])
     try:
         return fn(base)
     except Exception as e:
@@ -1109,13 +1161,20 @@ def model_line_level(line):
 
 
 def oracles_level(line, real_out):
-    if is_plain(line):
-        off = run_plain(line, False)
-        return [{'prop': 'C19', 'ok': off == real_out, 'expected': off[:300], 'observed': real_out[:300],
-                 'what': 'results and exceptions of parsing are identical whether logging is disabled or set to DEBUG'}], []
-    off = run_level(line, False)[0]
-    return [{'prop': 'C19', 'ok': off == real_out, 'expected': off[:300], 'observed': real_out[:300],
-             'what': 'results, transmissions and exceptions of requests are identical whether logging is disabled or set to DEBUG'}], []
+    """disabled, DEBUG everywhere (the `real` answer), and DEBUG with one module logger of the package turned down (or all
+    but one): the three must agree"""
+    run = run_plain if is_plain(line) else (lambda ln, lv: run_level(ln, lv)[0])
+    off = run(line, False)
+    LEVEL_SPLIT[0] = zlib.crc32(line.encode())
+    try:
+        part = run(line, True)
+    finally:
+        LEVEL_SPLIT[0] = None
+    ok = off == real_out == part
+    what = ('results and exceptions of parsing' if is_plain(line) else 'results, transmissions and exceptions of requests') + \
+        ' are identical whether logging is disabled or set to DEBUG'
+    return [{'prop': 'C19', 'ok': ok, 'expected': off[:300], 'observed': (real_out if real_out != off else 'with DEBUG on some module loggers only: ' + part)[:300],
+             'what': what}], []
 
 
 def gen_level(rng, n, profile):
@@ -1257,6 +1316,24 @@ def real_scan(line):
         s.serial_port.script = evs
         s.serial_port.j = 0
         s.serial_port.delivered = bytearray()
+        h = zlib.crc32(line.encode())
+        if h % 4 == 0:
+            # while this scan is inside one of its reads, a scan runs on ANOTHER port object (another thread probing another
+            # tty): that one sees two good frames, or noise; it takes no time here and nothing of it may show in this scan
+            other = tty_server(line + 'other')
+            other.setup()
+            good = frame(1, 7, b'ab') + frame(1, 3, b'') + b'$GPGGA,1*52\r\n'
+            other.serial_port.script = [(1, b) for b in (good if h % 8 == 0 else bytes([0xb5, 0x62, 1, 2, 3, 0x24, 0x2a, 0x30]) * 3)]
+            at, plain_read, state = (h >> 4) % 6, s.serial_port.read, {'n': 0}
+
+            def read(n=1):
+                if state['n'] == at:
+                    t = CLK.ticks
+                    other.scan(0.05)
+                    CLK.ticks = t
+                state['n'] += 1
+                return plain_read(n)
+            s.serial_port.read = read
         CLK.ticks = 0
         r = s.scan(int(interval) / 1024.0)
         return f'{"true" if r else "false"} t={CLK.ticks} reads={s.serial_port.j}'
@@ -1606,6 +1683,22 @@ def names_on_this_machine():
 HERE = names_on_this_machine()
 
 
+def device_entry(rng, path):
+    """an entry of a DEVICES list as gpsd writes them: the path, and optional members in any order - none of which has any
+    say in which device is selected"""
+    if rng.random() < 0.4:
+        return {'path': path, 'x': 1}
+    extra = {'class': 'DEVICE', 'driver': rng.choice(['u-blox', 'PPS', 'NMEA0183', 'pps', '', 'AIVDM']), 'subtype': 'SW ROM CORE 3.01',
+             'activated': '2024-01-01T00:00:00.000Z', 'flags': rng.choice([0, 1, 5]), 'native': rng.choice([0, 1]), 'bps': rng.choice([9600, 115200]),
+             'parity': 'N', 'stopbits': 1, 'cycle': 1.0, 'mincycle': 0.02, 'readonly': rng.choice([True, False])}
+    keys = rng.sample(sorted(extra), rng.randrange(1, len(extra) + 1))
+    d = {k: extra[k] for k in keys}
+    d['path'] = path
+    items = list(d.items())
+    rng.shuffle(items)
+    return dict(items)
+
+
 def gen_gpsd(rng, n, profile):
     devs = ['/dev/a', '/dev/b', '/dev/gnss0', '/dev/ttyS3', '/dev/ttyACM0', '/dev/ttyACM10', '/dev/ab'] + HERE
     for _ in range(n):
@@ -1621,7 +1714,7 @@ def gen_gpsd(rng, n, profile):
             for _ in range(rng.randrange(0, 4)):
                 k = rng.random()
                 if k < .35:
-                    v = {'class': 'DEVICES', 'devices': [{'path': p, 'x': 1} for p in rng.sample(devs, rng.randrange(0, 5))]}
+                    v = {'class': 'DEVICES', 'devices': [device_entry(rng, p) for p in rng.sample(devs, rng.randrange(0, 5))]}
                 elif k < .45:
                     v = {'class': 'VERSION', 'release': '3.2' + str(rng.randrange(9)), 'rev': 'x'}
                 elif k < .55:
@@ -1728,7 +1821,7 @@ def gen_gpsdsetup(rng, n):
             for _ in range(rng.randrange(1, 4)):
                 k = rng.random()
                 if k < .6:
-                    toks.append(tok_json({'class': 'DEVICES', 'devices': [{'path': p} for p in rng.sample(devs, rng.randrange(0, 4))]}))
+                    toks.append(tok_json({'class': 'DEVICES', 'devices': [device_entry(rng, p) for p in rng.sample(devs, rng.randrange(0, 4))]}))
                 elif k < .75:
                     toks.append(tok_json({'class': 'VERSION', 'release': '3.25'}))
                 elif k < .9:
